@@ -22,7 +22,8 @@ static inline void ythread_callback_yield_impl(void *arg,
                                                ABT_pool_context context)
 {
     ABTI_ythread *p_prev = (ABTI_ythread *)arg;
-    if (ABTI_thread_handle_request(&p_prev->thread, ABT_TRUE) &
+    if (ABTI_thread_handle_request(p_prev->thread.p_last_xstream,
+                                   &p_prev->thread, ABT_TRUE) &
         ABTI_THREAD_HANDLE_REQUEST_CANCELLED) {
         /* p_prev is terminated. */
     } else {
@@ -66,7 +67,8 @@ void ABTI_ythread_callback_thread_yield_to(void *arg)
      * that has been pushed by ABTI_pool_add_thread() and change
      * p_prev->thread.p_pool by ABT_unit_set_associated_pool(). */
     ABTI_pool *p_pool = p_prev->thread.p_pool;
-    if (ABTI_thread_handle_request(&p_prev->thread, ABT_TRUE) &
+    if (ABTI_thread_handle_request(p_prev->thread.p_last_xstream,
+                                   &p_prev->thread, ABT_TRUE) &
         ABTI_THREAD_HANDLE_REQUEST_CANCELLED) {
         /* p_prev is terminated. */
     } else {
@@ -88,7 +90,8 @@ void ABTI_ythread_callback_resume_yield_to(void *arg)
      * access it after that ULT becomes resumable. */
     ABTI_ythread *p_prev = p_arg->p_prev;
     ABTI_ythread *p_next = p_arg->p_next;
-    if (ABTI_thread_handle_request(&p_prev->thread, ABT_TRUE) &
+    if (ABTI_thread_handle_request(p_prev->thread.p_last_xstream,
+                                   &p_prev->thread, ABT_TRUE) &
         ABTI_THREAD_HANDLE_REQUEST_CANCELLED) {
         /* p_prev is terminated. */
     } else {
@@ -104,7 +107,8 @@ void ABTI_ythread_callback_suspend(void *arg)
 {
     ABTI_ythread *p_prev = (ABTI_ythread *)arg;
     /* Request handling.  p_prev->thread.p_pool might be changed. */
-    ABTI_thread_handle_request(&p_prev->thread, ABT_FALSE);
+    ABTI_thread_handle_request(p_prev->thread.p_last_xstream,
+                               &p_prev->thread, ABT_FALSE);
     /* Increase the number of blocked threads of the pool p_prev will be pushed
      * to when it is resumed (i.e., after migration) */
     ABTI_pool_inc_num_blocked(p_prev->thread.p_pool);
@@ -122,7 +126,8 @@ void ABTI_ythread_callback_resume_suspend_to(void *arg)
     ABTI_ythread *p_prev = p_arg->p_prev;
     ABTI_ythread *p_next = p_arg->p_next;
     /* Request handling.  p_prev->thread.p_pool might be changed. */
-    ABTI_thread_handle_request(&p_prev->thread, ABT_FALSE);
+    ABTI_thread_handle_request(p_prev->thread.p_last_xstream,
+                               &p_prev->thread, ABT_FALSE);
     ABTI_pool *p_prev_pool = p_prev->thread.p_pool;
     ABTI_pool *p_next_pool = p_next->thread.p_pool;
     if (p_prev_pool != p_next_pool) {
@@ -168,7 +173,8 @@ void ABTI_ythread_callback_suspend_unlock(void *arg)
     ABTI_ythread *p_prev = p_arg->p_prev;
     ABTD_spinlock *p_lock = p_arg->p_lock;
     /* Request handling.  p_prev->thread.p_pool might be changed. */
-    ABTI_thread_handle_request(&p_prev->thread, ABT_FALSE);
+    ABTI_thread_handle_request(p_prev->thread.p_last_xstream,
+                               &p_prev->thread, ABT_FALSE);
     /* Increase the number of blocked threads */
     ABTI_pool_inc_num_blocked(p_prev->thread.p_pool);
     /* Set this thread's state to BLOCKED. */
@@ -187,7 +193,8 @@ void ABTI_ythread_callback_suspend_join(void *arg)
     ABTI_ythread *p_prev = p_arg->p_prev;
     ABTI_ythread *p_target = p_arg->p_target;
     /* Request handling.  p_prev->thread.p_pool might be changed. */
-    ABTI_thread_handle_request(&p_prev->thread, ABT_FALSE);
+    ABTI_thread_handle_request(p_prev->thread.p_last_xstream,
+                               &p_prev->thread, ABT_FALSE);
     /* Increase the number of blocked threads */
     ABTI_pool_inc_num_blocked(p_prev->thread.p_pool);
     /* Set this thread's state to BLOCKED. */
@@ -209,7 +216,8 @@ void ABTI_ythread_callback_suspend_replace_sched(void *arg)
     ABTI_ythread *p_prev = p_arg->p_prev;
     ABTI_sched *p_main_sched = p_arg->p_main_sched;
     /* Request handling.  p_prev->thread.p_pool might be changed. */
-    ABTI_thread_handle_request(&p_prev->thread, ABT_FALSE);
+    ABTI_thread_handle_request(p_prev->thread.p_last_xstream,
+                               &p_prev->thread, ABT_FALSE);
     /* Increase the number of blocked threads */
     ABTI_pool_inc_num_blocked(p_prev->thread.p_pool);
     /* Set this thread's state to BLOCKED. */
